@@ -37,4 +37,9 @@ theorem c12_mcs_no_use_after_free (nlocks nthreads : Nat) (acts : List Mcs.Act)
     (Mcs.run CppUtil.Props.mcsParams (Mcs.mkSt nlocks nthreads) acts).uaf = 0 :=
   CppUtil.Props.mcs_no_use_after_free nlocks nthreads acts hr
 
+/-- C12, second half: no node is lost.  Every live node is a thread's cached spare or the node of an unfinished
+    request (bound: #threads + #outstanding requests); at quiescence only cached spares remain. -/
+theorem c12_mcs_live_nodes_accounted := @CppUtil.Props.mcs_live_nodes_accounted
+theorem c12_mcs_no_leak_at_quiescence := @CppUtil.Props.mcs_no_leak_at_quiescence
+
 end CppUtil.Props
